@@ -506,13 +506,15 @@ class ExprTr:
     BIN = {ast.Add: "o_add", ast.Sub: "o_sub", ast.Mult: "o_mul", ast.Div: "o_div"}
 
     def __init__(self, subst, consts=None, where=""):
-        self.subst, self.consts, self.where = subst, consts or {}, where
+        self.subst = {k.replace(" ", ""): v for k, v in subst.items()}
+        self.consts = {k.replace(" ", ""): v for k, v in (consts or {}).items()}
+        self.where = where
 
     def err(self, node, msg="unsupported"):
         raise TranslateError(f"{self.where}: line {getattr(node, 'lineno', '?')}: {msg}: {ast.unparse(node)}")
 
     def num(self, node):
-        src = ast.unparse(node)
+        src = ast.unparse(node).replace(" ", "")
         if src in self.subst:
             return self.subst[src]
         if isinstance(node, ast.Constant) and isinstance(node.value, (int, float)) and not isinstance(node.value, bool):
@@ -537,7 +539,7 @@ class ExprTr:
         self.err(node)
 
     def boolean(self, node):
-        src = ast.unparse(node)
+        src = ast.unparse(node).replace(" ", "")
         if src in self.subst:
             return self.subst[src]
         if isinstance(node, ast.Compare) and len(node.ops) == 1:
